@@ -9,7 +9,7 @@ from ..selftest import Mutant
 
 ID = "C23"
 TECHNIQUE = "CFG ordering (master before local), guard dominance for the out-of-date refusals and the --local path (K1/K2) in breezy/commit.py and breezy/uncommit.py (ast)"
-FLOOR = 12
+FLOOR = 17
 CM = "breezy/commit.py"
 UC = "breezy/uncommit.py"
 EXPLANATION = """
